@@ -20,20 +20,31 @@ EXTRA_TECH = {
     "C03": "; parity abstract interpretation of the C derivative (zero / even / odd / mixed / unknown per reflection, symmetric "
            "lattice sums re-indexed); homogeneity degrees in the separations to derive the unit order of the multi-body tuple, checked "
            "against the separations option of every shipped configuration",
+    "C04": "; statement-order rule: a rate evaluated on the stored in-state comes after the time slice of that state",
     "C05": "; abstract reading of the selection walk over index / rate / identifier / prefix-sum streams; linear bookkeeping of the "
            "pairwise derivatives (net coefficients +1 / -1); path-wise insertion-order rule for two composite objects",
     "C06": "; three-valued reachability for the finite-time filter and the empty-heap raise; byte-count restart rule for rebuilt heaps; "
            "expansion of C helper functions and pointer aliases in the zone analysis",
-    "C07": "; extraction-copy rule (shared with C13); scheduler protocol rules (shared with C06)",
-    "C08": "; scheduler lazy-deletion protocol (shared with C06) and activator pool accounting (shared with C09)",
+    "C07": "; extraction-copy rule (shared with C13); scheduler protocol rules (shared with C06); commit routine of the induced "
+           "velocities (shared with C12)",
+    "C08": "; scheduler lazy-deletion protocol (shared with C06) and activator pool accounting (shared with C09); path rule: every "
+           "path through the mediators' trash loops calls scheduler.trash_event",
     "C09": "; one symbolic iteration of the trash loop over list values with alias tracking; pool writers inside the creation routines; "
-           "idempotence (read / write disjointness) of the tagger switch; scheduler lazy-deletion protocol (shared with C06)",
+           "idempotence (read / write disjointness) of the tagger switch; scheduler lazy-deletion protocol (shared with C06); tagger algebra "
+           "of the cell taggers (shared with C10); trash-loop path rule and single call site of get_succeeding_event per run-loop iteration",
     "C10": "; may-dependence (data and control) of the active cell on the configured cell level; tagger-pool reachability of every "
-           "shipped configuration: no candidate of a cell family survives a cell crossing",
+           "shipped configuration: no candidate of a cell family survives a cell crossing; memo-key completeness; the rule set of C18 (far "
+           "cells are reached through the cell-veto proposal only)",
     "C11": "; truth tables of the placement tests and of the relevance predicate over the sign of the charge; abstract execution of the "
-           "boundary loop for both signs of the velocity; loop-exit postcondition for the stored cell corners",
-    "C12": "; extraction-copy rule (shared with C13)",
-    "C14": "; no arithmetic on quotient / remainder in comparison code (Python and heap.c)",
+           "boundary loop for both signs of the velocity; loop-exit postcondition for the stored cell corners; class-level containers that "
+           "are changed in place are shared state",
+    "C12": "; extraction-copy and insertion rules (shared with C13); tagger-pool reachability (shared with C08)",
+    "C13": "; setters store the given value (identity-like expression of the parameter)",
+    "C14": "; no arithmetic on quotient / remainder in comparison code (Python and heap.c); every writer of the representation writes "
+           "all fields the constructor sets",
+    "C17": "; insertion rule (shared with C13); self-clocked taggers are never deactivated; trash-loop path rule and single call site "
+           "of get_succeeding_event",
+    "C19": "; strict-order truth tables of the heap comparisons (shared with C06: the dump replays the array order)",
     "C18": "; all comparisons after resolving locals and inlining helpers (no rule names a variable); may-dependence of the offset origin "
            "on the cell level; tagger-pool reachability: no cell-veto candidate survives a cell crossing",
     "C20": "; path-wise abstract interpretation of the parent run loop over the stage machine (stage sets refined by tests, event "
